@@ -190,7 +190,7 @@ fn run_case(cfg: &Value, case: &Value, ln: usize) -> (Vec<Mismatch>, Value, Vec<
                 for (k, op) in ops.iter().enumerate() {
                     let item = idx * 10 + (k as i64 + 1);
                     set_current_item(item);
-                    if op != "weCb" {
+                    if op != "weCb" && op != "blockTokio" {
                         rec.log(json!({"ev": "SendCall", "item": item, "kind": match op.as_str() { "send" => "send", "try" => "try", _ => "block" }}));
                     }
                     if op == "weCb" {
@@ -204,6 +204,35 @@ fn run_case(cfg: &Value, case: &Value, ln: usize) -> (Vec<Mismatch>, Value, Vec<
                         });
                         set_current_empty_watcher(None);
                         obs.lock().unwrap().sres.entry(name.clone()).or_default().push("registered".to_string());
+                        continue;
+                    }
+                    if op == "blockTokio" {
+                        // the async send, polled by hand inside a runtime context; it parks at the
+                        // hook points inside its polls and at "tokio_wait" while its oneshot is pending
+                        rec.log(json!({"ev": "SendCall", "item": item, "kind": "block"}));
+                        let rt = tokio::runtime::Builder::new_current_thread().enable_time().build().unwrap();
+                        let _guard = rt.enter();
+                        let mut fut = Box::pin(emit_batcher::tokio::send(&*sender, item, LONG));
+                        let waker = Arc::new(NoWake).into();
+                        let mut cx = Context::from_waker(&waker);
+                        let r = loop {
+                            match fut.as_mut().poll(&mut cx) {
+                                Poll::Ready(r) => break r,
+                                Poll::Pending => {
+                                    let _ = sched.park("tokio_wait");
+                                }
+                            }
+                        };
+                        let res = match r {
+                            Ok(()) => "ok".to_string(),
+                            Err(e) => match e.into_retryable() {
+                                Some(back) if back == item => "err-full-returned".to_string(),
+                                Some(_) => "err-wrong-item-returned".to_string(),
+                                None => "err-closed".to_string(),
+                            },
+                        };
+                        rec.log(json!({"ev": "SendRet", "item": item, "res": res}));
+                        obs.lock().unwrap().sres.entry(name.clone()).or_default().push(res);
                         continue;
                     }
                     let res = match op.as_str() {
